@@ -2177,6 +2177,9 @@ class CreateIndexBuilder:
         """
         Partial index where clause.
         """
+        if isinstance(criterion, EmptyCriterion):
+            return
+
         if self._wheres:
             self._wheres &= criterion
         else:
